@@ -337,6 +337,72 @@ pub fn corpus() -> Vec<Item> {
         let spec = crate::c17::spec_of(&c, 7);
         out.push(Item { name: name.into(), bytes: spec.write_codestream_cropped(false, false, 0, Some(canvas), ycbcr), frames: 1, keyframes: 1, width: canvas.0, height: canvas.1 });
     }
+    // VarDCT with noise, and with frame upsampling 2 (image twice the coded size)
+    for (name, o) in [
+        ("vardct-ycbcr-40x24-noise", jxlw::jpeg::StreamOpts { noise: Some([400, 300, 200, 150, 100, 80, 60, 40]), ..Default::default() }),
+        ("vardct-noycbcr-40x24-noise-gab", jxlw::jpeg::StreamOpts { noise: Some([1023, 0, 512, 7, 900, 33, 128, 256]), filters: true, no_ycbcr: true, ..Default::default() }),
+        ("vardct-ycbcr-40x24-up2", jxlw::jpeg::StreamOpts { upsampling: 2, ..Default::default() }),
+        ("vardct-ycbcr-40x24-up4-epf", jxlw::jpeg::StreamOpts { upsampling: 4, filters: true, epf_iters: 2, ..Default::default() }),
+    ] {
+        let mut t = crate::explore::Tape::default();
+        let mut c = crate::c17::cfg_from(&mut t);
+        c.size = (40, 24);
+        c.pattern = 5;
+        let spec = crate::c17::spec_of(&c, 7);
+        let up = o.upsampling.max(1);
+        out.push(Item { name: name.into(), bytes: spec.write_codestream_with(&o), frames: 1, keyframes: 1, width: 40 * up, height: 24 * up });
+    }
+    // chroma-subsampled VarDCT (4:2:0, 4:2:2, 4:4:0), the middle one with restoration filters
+    for (name, sampling, size, filters) in [("vardct-420-40x24", 1u32, (40usize, 24usize), false), ("vardct-422-33x17-gab-epf", 2, (33, 17), true), ("vardct-440-24x40", 3, (24, 40), false)] {
+        let mut t = crate::explore::Tape::default();
+        let mut c = crate::c17::cfg_from(&mut t);
+        c.size = size;
+        c.pattern = 5;
+        c.sampling = sampling;
+        let spec = crate::c17::spec_of(&c, 11);
+        out.push(Item { name: name.into(), bytes: spec.write_codestream_with(&jxlw::jpeg::StreamOpts { filters, ..Default::default() }), frames: 1, keyframes: 1, width: size.0 as u32, height: size.1 as u32 });
+    }
+    // Modular frames with upsampling 2 / 8 (alpha upsampled alike)
+    for (name, up, w, h) in [("rgba-up2-21x13", 2u32, 21u32, 13u32), ("rgba-up8-35x18", 8, 35, 18)] {
+        let mut img = ImageHeader::simple(w, h, false, 8);
+        img.ec_info = vec![ExtraChannelInfo::new(EC_ALPHA, BitDepth::int(8))];
+        let mut fh = FrameHeader::modular_lossless(&img);
+        fh.upsampling = up;
+        fh.ec_upsampling = vec![up];
+        let (cw, ch) = (((w + up - 1) / up) as usize, ((h + up - 1) / up) as usize);
+        let d = FrameDesc { alt_tree: None, local_tree: false, fh, channels: planes(cw, ch, 4, 255, 3), tree: Node::leaf(5), ans: false, transforms: vec![], toc_rev: false };
+        out.push(item(name, &img, vec![encode_frame(&img, &d)], 1));
+    }
+    // patches: a reference-only frame and a frame whose patch dictionary copies from it
+    {
+        use jxlw::patches::*;
+        let mut img = ImageHeader::simple(24, 20, false, 8);
+        img.ec_info = vec![ExtraChannelInfo::new(EC_ALPHA, BitDepth::int(8))];
+        let mut f0 = FrameHeader::modular_lossless(&img);
+        f0.frame_type = FT_REFERENCE_ONLY;
+        f0.is_last = false;
+        f0.save_as_reference = 1;
+        f0.have_crop = true;
+        f0.width = 9;
+        f0.height = 7;
+        if f0.save_before_ct_signalled(&img) {
+            f0.save_before_ct = true;
+        }
+        let d0 = FrameDesc { alt_tree: None, local_tree: false, fh: f0, channels: planes(9, 7, 4, 255, 9), tree: Node::leaf(5), ans: false, transforms: vec![], toc_rev: false };
+        let mut f1 = FrameHeader::modular_lossless(&img);
+        f1.flags |= FLAG_PATCHES;
+        let pb = |mode: u32| PatchBlend { mode, alpha_channel: 0, clamp: false };
+        let refs = vec![
+            PatchRef { ref_idx: 1, x0: 1, y0: 1, w: 6, h: 5, targets: vec![PatchTarget { x: 2, y: 3, blending: vec![pb(PATCH_REPLACE), pb(PATCH_REPLACE)] }, PatchTarget { x: 17, y: 14, blending: vec![pb(PATCH_BLEND_ABOVE), pb(PATCH_BLEND_ABOVE)] }] },
+            PatchRef { ref_idx: 1, x0: 0, y0: 0, w: 9, h: 7, targets: vec![PatchTarget { x: 10, y: 0, blending: vec![pb(PATCH_ADD), pb(PATCH_NONE)] }] },
+        ];
+        let mut coded = planes(24, 20, 4, 255, 4);
+        let _ = &mut coded;
+        let mut spec = ModularFrameSpec::new(f1, coded);
+        spec.tree = Node::leaf(5);
+        spec.lf_global_prefix = Some(write_patches(&refs, 1, &CodeOpts { use_prefix: true, ..Default::default() }));
+        out.push(item("rgba-24x20-patches", &img, vec![encode_frame(&img, &d0), write_modular_frame(&img, &spec).bytes], 1));
+    }
     let _ = BitWriter::new();
     out
 }
